@@ -1518,6 +1518,16 @@ XPathProcessorImpl::PrimaryExpr()
         {
             m_expression->appendOpCode(XPathExpression::eOP_VARIABLE);
 
+            // The name of a variable follows the '$' ("$", "$2" and "$''"
+            // are not variable references).
+            if (m_token.empty() == true ||
+                XalanQName::isValidNCName(m_token) == false)
+            {
+                error(
+                    XalanMessages::IsNotValidQName_1Param,
+                    m_token);
+            }
+
             QName();
 
             m_expression->updateOpCodeLength(
